@@ -25,9 +25,9 @@ PROPS["C15"] = {
         {
             "pkg": "primitives/ed25519/extra/ecvrf", "configs": ALL4,
             "tests": {
-                "TestC15ProveVerify": T(800, 30000, shards={"quick": 4, "thorough": 16}),
-                "TestC15VerifyRejects": T(1200, 40000, shards={"quick": 4, "thorough": 16}),
-                "TestC15Uniqueness": T(320, 12000, shards={"quick": 4, "thorough": 16}),
+                "TestC15ProveVerify": T(600, 20000, shards={"quick": 4, "thorough": 16}),
+                "TestC15VerifyRejects": T(1000, 28000, shards={"quick": 4, "thorough": 16}),
+                "TestC15Uniqueness": T(240, 8000, shards={"quick": 4, "thorough": 16}),
                 "TestC15RFCInputs": LIST(),
                 "TestC15EncodingList": LIST(),
                 "TestC15TorsionList": LIST(),
